@@ -105,6 +105,25 @@ def random_cut_case(rng, max_heavy, kinds=('$', '><'), max_parts=6, mol_kw=None,
         return None
     ast, pre = M.base_to_ast(rng, case['base'])
     truth = M.truth_graph(g)
+    atom_annotations = {}
+    if rng.random() < 0.15:
+        # per-atom annotations (weight, free keys) written into bracket atoms of the fragment texts, single-atom
+        # fragments included; expected values come from the independent annotation model
+        from ..gen import annot as A
+        for name, toks in case['tokens'].items():
+            new_toks = list(toks)
+            atoms_ = [k for k, t in enumerate(toks) if t[0] == 'atom']
+            for pos_, k in enumerate(atoms_):
+                t = toks[k]
+                d = g.nodes[t[2]]
+                if rng.random() < 0.4 and not d.get('aromatic') and d['charge'] == 0:
+                    w = rng.choice(['0.5', '0.25', '2', '1e-1', '0'])
+                    text = rng.choice(['w=' + w, w, w + ';note=' + rng.choice(['a', 'b2', '7']), 'note=x;w=' + w, 'tag=' + rng.choice(['t1', 'q'])])
+                    txt = t[1] if t[1].startswith('[') else M.atom_text(d, d['hcount'] if rng.random() < 0.5 else 0, bracket=True)
+                    new_toks[k] = ('atom', txt[:-1] + ';' + text + ']', t[2])
+                    exp = A.model('frag', text)
+                    atom_annotations['%s|%d' % (name, pos_)] = {kk: vv for kk, vv in exp.items() if kk != 'chiral'}
+            case['frags'][name] = ''.join('(' if x[0] == 'open' else ')' if x[0] == 'close' else x[1] for x in new_toks)
     items = list(case['frags'].items())
     rng.shuffle(items)
     smiles = M.molecule_smiles(rng, g)
@@ -126,7 +145,9 @@ def random_cut_case(rng, max_heavy, kinds=('$', '><'), max_parts=6, mol_kw=None,
                 ctor=ctor, alt_base_strings=alt, single='{[#M]}.{#M=%s}' % smiles, smiles=smiles, truth=truth_to_json(truth),
                 features=sorted(feats), nheavy=len(g), nfrag=nparts, ncuts=len(case['cuts']),
                 frag_atoms={name: atoms for name, atoms in case['atom_orders'].items()},
-                base_order=pre)
+                base_order=pre, atom_annotations=atom_annotations)
+    if atom_annotations:
+        out['features'] = sorted(set(out['features']) | {'annotated_fragment_atoms'} | ({'annotated_single_atom_fragment'} if any(len(case['atom_orders'][k.split('|')[0]]) == 1 for k in atom_annotations) else set()))
     return rename_fragments(out, names) if names else out
 
 
@@ -150,6 +171,7 @@ def rename_fragments(case, names):
     out['base_ast'] = ast
     out['base_graph'] = {'nodes': [[n, names.get(nm, nm)] for n, nm in case['base_graph']['nodes']], 'edges': case['base_graph']['edges']}
     out['frag_atoms'] = {names.get(k, k): v for k, v in case['frag_atoms'].items()}
+    out['atom_annotations'] = {names.get(k.split('|')[0], k.split('|')[0]) + '|' + k.split('|')[1]: v for k, v in case.get('atom_annotations', {}).items()}
     out['features'] = sorted(set(case['features']) | {'diverse_fragment_names'})
     return out
 
